@@ -165,7 +165,7 @@ def gen_task(rng, c=None):
             'state': rng.choice(('file', 'file', 'missing', 'dir')),
             'remove': core.weighted(rng, [
                 ('default', 4), ('custom_ok', 2),
-                ('inject', 3), ('param_default', 1)]),
+                ('inject', 3), ('param_default', 1), ('backend', 2)]),
             'errno': rng.choice((errno.ENOENT, errno.EACCES, errno.EBUSY,
                                  errno.EISDIR, errno.EIO, errno.EROFS)),
             'body': core.weighted(rng, [('raise', 5), ('ok', 1)]),
@@ -497,6 +497,19 @@ class Real:
             if s.get('rm_yield'):
                 yield_fn()
             raise rm_err
+
+        class BackendError(OSError):
+            pass
+
+        def backend_unlink(p):
+            # a storage backend's remover: reports "already gone" with its
+            # own OSError subclass that carries ENOENT
+            calls.append(p)
+            if s.get('rm_yield'):
+                yield_fn()
+            if not os.path.lexists(p):
+                raise BackendError(errno.ENOENT, 'no such object', p)
+            os.unlink(p)
         try:
             if s['remove'] == 'default':
                 cm = self.fu.remove_path_on_error(path)
@@ -505,6 +518,10 @@ class Real:
                     path, remove=self.fu.delete_if_exists)
             elif s['remove'] == 'custom_ok':
                 cm = self.fu.remove_path_on_error(path, remove=custom_ok)
+            elif s['remove'] == 'backend':
+                cm = self.fu.remove_path_on_error(
+                    path, remove=lambda p: self.fu.delete_if_exists(
+                        p, remove=backend_unlink))
             else:
                 cm = self.fu.remove_path_on_error(path, remove=inject)
             with cm:
@@ -870,6 +887,8 @@ class C09(Check):
                             viol('remover_failure_not_propagated',
                                  got=res[0])
                 else:
+                    if rm == 'backend' and s['state'] == 'missing':
+                        bump(pr, 'backend_reports_enoent_its_own_way')
                     if s['state'] in ('file', 'missing'):
                         expect('%s:orig' % tid)
                         if exists:
